@@ -270,9 +270,10 @@ def S(**kw):
     STATIC_FACTS.append(kw)
 
 ALIGN_STAGE_FILES = ['lib/src/aln_*.c', 'lib/src/bisectingKmeans.c', 'lib/src/bpm.c', 'lib/src/sequence_distance.c',
-                     'lib/src/weave_alignment.c', 'lib/src/pick_anchor.c', 'lib/src/euclidean_dist.c', 'lib/src/task.c']
+                     'lib/src/weave_alignment.c', 'lib/src/pick_anchor.c', 'lib/src/euclidean_dist.c', 'lib/src/task.c',
+                     'lib/src/msa_sort.c']        # the canonical order feeds the aligner: it may not look at residue bytes either (seed C14_c)
 S(id='seq_bytes_not_read_by_aligner', props=['C14', 'C01'], kind='sites_equal', pattern=r'->\s*seq\b', files=ALIGN_STAGE_FILES, expected=[],
-  text='no function of the alignment stage (tree building, distance, DP kernels, weaving) touches the residue bytes seq->seq: the gap pattern is computed from the internal codes s[] only, residue bytes are only copied by make_linear_sequence')
+  text='no function of the alignment stage (canonical sorting, tree building, distance, DP kernels, weaving) touches the residue bytes seq->seq: the gap pattern is computed from the internal codes s[] only, residue bytes are only copied by make_linear_sequence')
 S(id='internal_code_writers', props=['C14', 'C05'], kind='sites_equal', pattern=r'->\s*s\s*\[', files=['lib/src/msa_*.c', 'lib/src/aln_*.c', 'lib/src/bisectingKmeans.c', 'lib/src/bpm.c', 'lib/src/sequence_distance.c', 'lib/src/weave_alignment.c', 'lib/src/pick_anchor.c', 'lib/src/alphabet.c'],
   expected=['lib/src/msa_op.c:convert_msa_to_internal', 'lib/src/msa_op.c:msa_seq_cpy'],
   text='the internal code array ->s[..] is indexed (hence possibly written) only in convert_msa_to_internal (proved: every element < L) and msa_seq_cpy (copies)')
